@@ -113,6 +113,8 @@ type c29ctx struct {
 	class  map[*types.Func]string // Authorize* helper -> "read" | "write"
 	filter map[*types.Func]bool   // AuthorizeFind* functions
 	xform  map[*types.Func]int    // verified error transformers -> index of the error argument
+	// summaries of checking helpers (see helperCheck)
+	helperMemo map[*core.Graph]helperSum
 }
 
 const (
@@ -807,34 +809,87 @@ func (c *c29ctx) filterOne(rule string, f *core.Func, sp *types.Var) {
 // branches otherwise). It stops at the loop head and at nodes that redefine
 // the error variable. Returns the visited nodes (without the start).
 func (c *c29ctx) simulateDenied(g *core.Graph, start *core.Node, ev types.Object, unauth bool, head *core.Node) map[*core.Node]bool {
-	info := g.Info
-	leaf := func(cond ast.Expr) (val, known bool) {
-		if x, nonNilOnTrue, ok := core.NilTest(info, cond); ok && core.ObjOf(info, x) == ev {
-			return nonNilOnTrue, true
-		}
-		be, ok := cond.(*ast.BinaryExpr)
-		if !ok || (be.Op != token.EQL && be.Op != token.NEQ) {
-			return false, false
-		}
-		isCode := func(e ast.Expr) bool {
-			cl, ok := ast.Unparen(e).(*ast.CallExpr)
-			return ok && call("kit/platform/errors.ErrorCode")(info, cl) && len(cl.Args) == 1 && core.ObjOf(info, cl.Args[0]) == ev
-		}
-		isUnauth := func(e ast.Expr) bool {
-			k := core.ConstOf(info, e)
-			return k != nil && k.Name() == "EUnauthorized"
-		}
-		if (isCode(be.X) && isUnauth(be.Y)) || (isCode(be.Y) && isUnauth(be.X)) {
-			return unauth == (be.Op == token.EQL), true
-		}
-		return false, false
-	}
 	var starts []*core.Node
 	for _, e := range start.Succ {
 		starts = append(starts, e.To)
 	}
 	stop := func(n *core.Node) bool { return n == head || g.ErrVarOf(n) == ev }
-	return g.ReachUnder(starts, stop, leaf)
+	// region in which ev still holds the verdict of this check (no facts applied)
+	region := g.Reach(starts, stop, nil)
+	var body ast.Node = g.Body
+	if g.Fn != nil {
+		body = g.Fn.Decl.Body
+	}
+	// temp resolves a temporary that is defined once, inside the region (so
+	// from the verdict of this check), to its defining expression.
+	temp := func(env core.EnvHD2, e ast.Expr) ast.Expr {
+		id, ok := ast.Unparen(e).(*ast.Ident)
+		if !ok || env.Info != g.Info {
+			return nil
+		}
+		rhs, stmt, ok := core.SoleDefHD2(g.Info, body, core.ObjOf(g.Info, id))
+		if !ok {
+			return nil
+		}
+		if dn := g.NodeOfStmtHD2(stmt); dn == nil || !region[dn] || dn == head {
+			return nil
+		}
+		return rhs
+	}
+	var mk func(env core.EnvHD2) core.LeafEval
+	mk = func(env core.EnvHD2) core.LeafEval {
+		info := env.Info
+		isEv := func(e ast.Expr) bool {
+			if env.Obj(e) == ev {
+				return true
+			}
+			// e2 := err (defined from the verdict inside the region)
+			if rhs := temp(env, e); rhs != nil {
+				return env.Obj(rhs) == ev
+			}
+			return false
+		}
+		var isCode func(e ast.Expr) bool
+		isCode = func(e ast.Expr) bool {
+			if cl, ok := ast.Unparen(e).(*ast.CallExpr); ok {
+				return call("kit/platform/errors.ErrorCode")(info, cl) && len(cl.Args) == 1 && isEv(cl.Args[0])
+			}
+			// code := errors.ErrorCode(err)
+			if rhs := temp(env, e); rhs != nil {
+				if _, isCall := ast.Unparen(rhs).(*ast.CallExpr); isCall {
+					return isCode(rhs)
+				}
+			}
+			return false
+		}
+		isUnauth := func(e ast.Expr) bool {
+			k := core.ConstOf(info, e)
+			return k != nil && k.Name() == "EUnauthorized" && k.Pkg() != nil && strings.HasSuffix(k.Pkg().Path(), "kit/platform/errors")
+		}
+		var leaf core.LeafEval
+		leaf = func(cond ast.Expr) (val, known bool) {
+			if x, nonNilOnTrue, ok := core.NilTest(info, cond); ok && isEv(x) {
+				return nonNilOnTrue, true
+			}
+			if be, ok := cond.(*ast.BinaryExpr); ok && (be.Op == token.EQL || be.Op == token.NEQ) {
+				if (isCode(be.X) && isUnauth(be.Y)) || (isCode(be.Y) && isUnauth(be.X)) {
+					return unauth == (be.Op == token.EQL), true
+				}
+				return false, false
+			}
+			// denied := errors.ErrorCode(err) == errors.EUnauthorized; if denied {…}
+			if rhs := temp(env, cond); rhs != nil {
+				if b, isB := info.TypeOf(rhs).Underlying().(*types.Basic); isB && b.Info()&types.IsBoolean != 0 {
+					if _, isId := ast.Unparen(rhs).(*ast.Ident); !isId {
+						return core.EvalCond(rhs, c.p.LeafThroughPredicatesHD2(env, mk))
+					}
+				}
+			}
+			return false, false
+		}
+		return leaf
+	}
+	return g.ReachUnder(starts, stop, c.p.LeafThroughPredicatesHD2(core.BaseEnvHD2(g.Info, body), mk))
 }
 
 // ---------------------------------------------------------------- wrappers
@@ -1134,6 +1189,17 @@ func (c *c29ctx) gatesIn(w *wrapperT, g *core.Graph) (byKind map[int][]*core.Gat
 		}
 		k := c.classify(w, info, cl)
 		if k == ckNone {
+			// a checking helper (extracted statements): all its success exits
+			// lie behind successful checks of one class
+			if hk, hrts := c.helperCheck(w, g, info, cl, 2); hk != ckNone {
+				k = hk
+				for rt := range hrts {
+					rts[rt] = true
+				}
+				if gt, ok := g.GateOf(nd, c.transformer()); ok {
+					byKind[k] = append(byKind[k], gt)
+				}
+			}
 			continue
 		}
 		if k == ckRead || k == ckWrite {
